@@ -204,6 +204,7 @@ V_ExtParse(e) ==
          hdrOk == q.depth # 0 \/ (IsZero(q.pfp) /\ IsZero(q.idx))
      IN IF ~keyOk THEN "ok"        \* not a valid BIP32 payload: outside C07's domain
         ELSE IF Raised(e) /\ ~hdrOk THEN "ok"
+        ELSE IF Raised(e) /\ e.inp.form = "rawstream" THEN "ok"      \* a stream type the parser does not take
         ELSE IF Raised(e) THEN "extparse-raised-on-valid"
         ELSE LET want == IF e.inp.asPrv
                          THEN K32!PrvNode(e, Drop(q.keydata, 1), q.c, q.depth, q.idx, q.pfp, q.net)
